@@ -70,6 +70,9 @@ def raise_py(name, *args):
 _stamp = itertools.count(1)
 
 
+MUT_LINES = set()       # lines of the function under mutation that were executed on some explored path (per process)
+
+
 def stamp(o):
     o.birth = next(_stamp)
     return o
@@ -1965,8 +1968,19 @@ class Interp(object):
         self.trace_calls.append(q)
         saved_lc = self.loop_counters.get(q)
         self.loop_counters[q] = 0
+        body = fv.node.body
+        mut = getattr(self, 'ast_mutation', None)
+        if mut is not None and mut[0] == q and len(self.fn_stack) == getattr(self, 'entry_depth', -1) + 1:
+            # the function under contract with one deliberate mutation (in memory only)
+            if getattr(self, '_mutant', None) is None or self._mutant[0] is not fv.node:
+                from . import mutate as _mut
+                node2, what, line = _mut.mutant(fv.node, mut[1])
+                self._mutant = (fv.node, node2, what)
+                self.mutation_line = line
+            body = self._mutant[1].body
+            self.mutation_applied = self._mutant[2]
         try:
-            self.exec_block(loader.strip_docstring(fv.node.body), env)
+            self.exec_block(loader.strip_docstring(body), env)
         except _Return as r:
             return r.v
         finally:
@@ -1981,6 +1995,15 @@ class Interp(object):
             self.exec_stmt(s, env)
 
     def exec_stmt(self, node, env):
+        if getattr(self, 'ast_mutation', None) is not None and len(self.fn_stack) == getattr(self, 'entry_depth', -1) + 1:
+            # statements of the mutated function that are executed (simple statements: whole extent; compound ones: header line)
+            lo = getattr(node, 'lineno', 0)
+            hi = lo if isinstance(node, (ast.If, ast.For, ast.While, ast.Try, ast.With)) else getattr(node, 'end_lineno', lo)
+            if isinstance(node, (ast.If, ast.While)):
+                hi = getattr(node.test, 'end_lineno', lo)
+            elif isinstance(node, ast.For):
+                hi = getattr(node.iter, 'end_lineno', lo)
+            MUT_LINES.update(range(lo, hi + 1))
         m = getattr(self, 'exec_' + type(node).__name__, None)
         if m is None:
             self.unsupported(node, 'statement %s' % type(node).__name__)
